@@ -130,6 +130,18 @@ pub fn baseline_path(project_root: &Path) -> PathBuf {
     project_root.join(BASELINE_FILENAME)
 }
 
+/// True for the state directory of a project whose root is a git repository
+/// (`.git/sloc-guard`). Like the fallback state directory it is created by the tool, so a scan
+/// that is not told to exclude `.git/**` must not count it as an entry of the project.
+#[must_use]
+pub fn is_git_state_dir(path: &Path) -> bool {
+    path.file_name().is_some_and(|name| name == STATE_DIR_NAME)
+        && path
+            .parent()
+            .and_then(Path::file_name)
+            .is_some_and(|name| name == ".git")
+}
+
 /// True for the directory entries the tool itself creates inside a project: the fallback state
 /// directory, the default baseline file, and the temporary file an interrupted save leaves next
 /// to it. They are not part of the project: counting them would make a run change the file and
